@@ -202,6 +202,12 @@ class Scheduler:
         elif k == "skew":
             self._skew_point(me)
         elif k == "rendezvous":
+            if self._burst_left > 0:
+                # two threads have just met at shared state: let them also cut into each other's private stretches
+                if self.total_events > self._burst_until:
+                    self._burst_left = 0
+                elif self.rng.random() < st.get("burst_point_p", 0.001):
+                    self._switch_random(me, "burst-point")
             if self._parked is not None:
                 pt, _, since = self._parked
                 if pt is me:
@@ -252,6 +258,7 @@ class Scheduler:
             self._rendezvous_point(me, site)
 
     _burst_left = 0
+    _burst_until = 0
     _parked = None
 
     def _rendezvous_point(self, me, site):
@@ -259,6 +266,9 @@ class Scheduler:
         group (same file / same lock), then interleave the two finely for a burst of shared points."""
         st = self.strategy
         grp = site[1] if isinstance(site, tuple) and len(site) > 1 else site
+        focus = st.get("focus")
+        if focus is not None and grp != focus:
+            return  # this run concentrates on one group of shared-state sites
         if self._parked is not None and self._parked[0] is me:
             self._parked = None  # we are running again: no longer parked
         if self._burst_left > 0:
@@ -276,6 +286,7 @@ class Scheduler:
         if pt is not me and grp == pgrp and not pt.done and pt.blocked_on is None:
             self._parked = None
             self._burst_left = st.get("burst_len", 16)
+            self._burst_until = self.total_events + st.get("burst_events", 200000)
             self.probes["rendezvous"] = self.probes.get("rendezvous", 0) + 1
             if self.rng.random() < 0.7:
                 self._switch_to(me, pt, "rendezvous")
